@@ -241,6 +241,23 @@ def _body_util(fn, kind, shape, letters):
         n = len(seqs)
         if fn in ("find_neighbor_pairs", "find_neighbor_pairs_index"):
             _distinct_strs(sym, so, seqs)
+        if fn == "find_neighbor_pairs_repeats":
+            # the input may repeat a sequence: each unordered pair of DISTINCT strings at distance 1 is still listed once
+            got = distance.find_neighbor_pairs(seqs, neighborhood=nbf)
+            firsts = [so.b_and(*[so.b_not(hc.str_eq_term(seqs[j], seqs[l])) for l in range(j)]) for j in range(n)]
+            conds = []
+            for i in range(n):
+                for j in range(i):
+                    hits = []
+                    for (a, b) in got:
+                        m1 = so.b_and(hc.str_eq_term(a, seqs[i]), hc.str_eq_term(b, seqs[j]))
+                        m2 = so.b_and(hc.str_eq_term(a, seqs[j]), hc.str_eq_term(b, seqs[i]))
+                        hits.append(so.b_or(m1, m2))
+                    conds.append(so.b_or(so.b_not(so.b_and(firsts[i], firsts[j])), so.eq(so.count_true(hits), so.ite(_d1_term(kind, seqs[i], seqs[j]), 1, 0))))
+            for (a, b) in got:
+                conds.append(so.b_or(*[so.b_and(hc.str_eq_term(a, seqs[i]), hc.str_eq_term(b, seqs[j]), _d1_term(kind, seqs[i], seqs[j]))
+                                       for i in range(n) for j in range(n) if i != j]))
+            return so.b_and(*conds), (lambda: f"find_neighbor_pairs -> {_realize(got)}")
         if fn == "find_neighbor_pairs":
             got = distance.find_neighbor_pairs(seqs, neighborhood=nbf)
             conds = []
@@ -298,7 +315,7 @@ def _replay_util(fn, kind, shape, letters):
         nbf = (lambda y: distance.levenshtein_neighbors(y, letters)) if kind == "lev" else (lambda y: distance.hamming_neighbors(y, letters))
         d = (lambda a, b: hc.lev(a, b)) if kind == "lev" else (lambda a, b: hc.ham(a, b))
         n = len(seqs)
-        if fn == "find_neighbor_pairs":
+        if fn in ("find_neighbor_pairs", "find_neighbor_pairs_repeats"):
             got = distance.find_neighbor_pairs(list(seqs), neighborhood=nbf)
             want = {frozenset((seqs[i], seqs[j])) for i in range(n) for j in range(i) if d(seqs[i], seqs[j]) == 1}
             g = [frozenset(p) for p in got]
@@ -389,6 +406,10 @@ def conditions(tier):
             out.append(Condition(f"C12/{fn}/{kind}/len={','.join(map(str, shape))}", _body_util(fn, kind, shape, "AC"),
                                  _replay_util(fn, kind, shape, "AC"), budget=400 if not T else 3000, models=("np",),
                                  bounds=f"{fn} on strings of lengths {shape} over AC, {kind} neighbourhood"))
+    for kind, shape in [("ham", (2, 2, 2)), ("lev", (1, 1, 1)), ("ham", (1, 1, 1))]:
+        out.append(Condition(f"C12/find_neighbor_pairs/repeats-allowed/{kind}/len={','.join(map(str, shape))}", _body_util("find_neighbor_pairs_repeats", kind, shape, "AC"),
+                             _replay_util("find_neighbor_pairs_repeats", kind, shape, "AC"), budget=400 if not T else 3000, models=("np",),
+                             bounds=f"find_neighbor_pairs on strings of lengths {shape} over AC that may repeat, {kind} neighbourhood: each pair of distinct strings listed once"))
     for n, nref, letters in [(1, 1, "AC"), (2, 1, "AC"), (2, 2, "AC"), (3, 1, "AC"), (2, 1, "ACD"), (1, 0, "AC"), (2, 0, "AC"), (3, 0, "AC"),
                              (2, -1, "AC"), (0, 0, "AC")] + ([(3, 2, "AC"), (3, 1, "ACD"), (4, 1, "AC")] if T else []):
         out.append(Condition(f"C12/nndist_hamming/|seq|={n}/refs={nref}/{letters}", _body_nnd(n, nref, letters), _replay_nnd(n, nref, letters),
